@@ -1,3 +1,4 @@
+// @lemma-for: C20
 // C20 fairness corollary, as a lemma over the contract that Kani proves for the real
 // `round_robin::cycle::State::next` (harness k5_cycle_next_is_counter_mod_len): the call that draws
 // counter value k is sent to backend k % n, and every call draws the next counter value (atomic
